@@ -74,6 +74,8 @@ func nonInterferencePart(name string, quick, thorough int) sup.Part {
 				}
 			}
 			for qi, st := range stmts {
+				// the very same statement text is first run on a sibling collection of the busy bucket
+				_, _ = busy.QueryRows(0, 1+(at+qi)%(cfg.Colls-1), st, nil, qi%2 == 1)
 				a, ea := alone.QueryRows(0, 0, st, nil, qi%2 == 1)
 				b, eb := busy.QueryRows(0, 0, st, nil, qi%2 == 1)
 				c.Count("query_results_compared", 1)
